@@ -1,5 +1,6 @@
 import PhotVerif.Driver.ApSum
 import PhotVerif.Model.Peaks
+import PhotVerif.Model.Centroid
 namespace PhotVerif.Driver
 open PhotVerif PhotVerif.Model PhotVerif.Model.Peaks
 
@@ -47,6 +48,26 @@ def handlePeaks (op : String) (args : List String) : Option String :=
       some (match selectStars rows br with
         | none => "none"
         | some idx => "ok " ++ joinSp (idx.map toString))
+  | "com", [hd, ds, ms] => do
+      let [ny, nx] ← allSome (hd.map parseNat?) | none
+      let dl ← allSome (ds.map V.parse?)
+      if dl.length ≠ ny * nx then none else
+      let da := dl.toArray
+      let mask2 ← parseMask ms ny nx
+      some (match Model.Centroid.centroidCom ny nx (fun p => da.getD p V.nan) (fun p => mask2 (p / nx) (p % nx)) with
+        | none => "nan"
+        | some (x, y) => s!"ok {showRat x} {showRat y}")
+  | "quadv", [a] => do
+      let [c10, c01, c11, c20, c02, ny, nx] := a | none
+      let c10 ← parseRat? c10; let c01 ← parseRat? c01; let c11 ← parseRat? c11
+      let c20 ← parseRat? c20; let c02 ← parseRat? c02
+      let ny ← parseNat? ny; let nx ← parseNat? nx
+      some (match Model.Centroid.quadVertex c10 c01 c11 c20 c02 ny nx with
+        | none => "nan"
+        | some (x, y) => s!"ok {showRat x} {showRat y}")
+  | "round", [[a]] => do
+      let a ← parseRat? a
+      some s!"ok {Model.Centroid.py2intround a}"
   | _, _ => none
 
 end PhotVerif.Driver
